@@ -20,7 +20,7 @@ def run(ctx):
             sig = "C06/%s/%s/%s" % (rec["lang"], c, lc.witness_class(rec, c))
             per_clause[sig] = per_clause.get(sig, 0) + 1
             ctx.fail(sig, "clause %s violated after the %s chain; input shape %s leaf %s at %s" % (c, rec["lang"], rec["shape"], rec["leaf"], rec["pos"]),
-                     {"shape": rec["shape"], "leaf": rec["leaf"], "pos": rec["pos"], "lang": rec["lang"]})
+                     {"shape": rec["shape"], "leaf": rec["leaf"], "pos": rec["pos"], "lang": rec["lang"]}, key=lc.case_key(rec))
     st = out["stats"]
     ok_runs = st["records"] - sum(v for k, v in st.items() if k.startswith("errors/"))
     if ok_runs < st["records"] // 3:
